@@ -19,6 +19,9 @@ type Chooser struct {
 	Dev    int   // number of non-zero choices (deviations from the default answer)
 }
 
+// NewChooser returns a chooser that replays prefix and answers 0 afterwards (replay of one recorded schedule).
+func NewChooser(prefix []int) *Chooser { return &Chooser{prefix: append([]int{}, prefix...)} }
+
 // Choose returns the next scripted choice (replaying the prefix) or 0 (the default).
 func (c *Chooser) Choose(n int) int {
 	if n <= 0 {
